@@ -52,9 +52,14 @@ var errVfIO = errors.New("unreadable history")
 
 func VerifHarness_C08_latest() {
 	d := &dag.DAG{Name: "d", Location: "/dags/d.yaml"}
-	live := vfChoice("socket", 2) == 1
+	sockState := vfChoice("socket", 3) // 0 no socket file, 1 live, 2 stale socket file of a killed agent
+	live := sockState == 1
 	liveSt := &model.Status{Name: "d", RequestID: "live-run", Status: scheduler.StatusRunning, StatusText: scheduler.StatusRunning.String()}
-	vfSock(d.SockAddr(), live, false, vfJSON(liveSt))
+	if sockState == 2 {
+		vfSockStale(d.SockAddr())
+	} else {
+		vfSock(d.SockAddr(), live, false, vfJSON(liveSt))
+	}
 	h := &vfHist08{}
 	pst := scheduler.Status(vfRange("persisted", 0, 4))
 	persisted := vfChoice("history", 4) // 0 latest status, 1 none today, 2 none at all, 3 unreadable
@@ -92,14 +97,19 @@ func VerifHarness_C08_latest() {
 // C08.byid: looking a run up by request id corrects "running" unless that very run is live.
 func VerifHarness_C08_byid() {
 	d := &dag.DAG{Name: "d", Location: "/dags/d.yaml"}
-	live := vfChoice("socket", 2) == 1
+	sockState := vfChoice("socket", 3) // 0 no socket file, 1 live, 2 stale socket file of a killed agent
+	live := sockState == 1
 	same := vfChoice("sameRun", 2) == 1
 	liveID := "other-run"
 	if same {
 		liveID = "asked-run"
 	}
 	liveSt := &model.Status{Name: "d", RequestID: liveID, Status: scheduler.StatusRunning}
-	vfSock(d.SockAddr(), live, false, vfJSON(liveSt))
+	if sockState == 2 {
+		vfSockStale(d.SockAddr())
+	} else {
+		vfSock(d.SockAddr(), live, false, vfJSON(liveSt))
+	}
 	pst := scheduler.Status(vfRange("persisted", 0, 4))
 	h := &vfHist08{byID: &model.StatusFile{File: "f", Status: &model.Status{Name: "d", RequestID: "asked-run", Status: pst, StatusText: pst.String()}}}
 	cl := &client{dataStore: vfStores08{h}, logger: logger.NewLogger(logger.NewLoggerArgs{Quiet: true})}
